@@ -16,6 +16,7 @@
    dbValues[i] walks in step with uniqueKeys, so both are one list of pairs.
    No proofs here. *)
 From DnsV Require Export Model.MultiValue.
+From DnsV Require Export Spec.MapOfLists.   (* only for the type op of operation histories *)
 Open Scope N_scope.
 
 Definition kv := (bytes * bytes)%type.
@@ -47,8 +48,8 @@ Definition del (s : store) (k v : bytes) : result store :=
   end.
 
 (* Find / ForEach with a fresh Context (rdb.get reads the store) *)
-Definition find (s : store) (k : bytes) : result bytes := find_data (get_or_nil s k).
-Definition for_each (s : store) (k : bytes) : list bytes * N := for_each_data (get_or_nil s k).
+Definition rdb_find (s : store) (k : bytes) : result bytes := find_data (get_or_nil s k).
+Definition rdb_for_each (s : store) (k : bytes) : list bytes * N := for_each_data (get_or_nil s k).
 
 (* getAffectedKeys after batch.sort(): the merge loop.  a, d = remaining sorted
    pairs, last = lastKey (None = nil).  The keys are returned in push order. *)
@@ -149,6 +150,22 @@ Section WithSort.
             | Ok vals => Ok (write_batch s vals)
             end
         end
+    end.
+
+  (* one operation: new store and error class (0 = nil); on error the store is as before.
+     Backup + Restore into another directory is the identity below this interface (trusted). *)
+  Definition model_step (s : store) (o : op) : store * N :=
+    match o with
+    | OAdd k v => (add s k v, 0)
+    | ODel k v => match del s k v with Ok s' => (s', 0) | Err e => (s, e) end
+    | OBatch adds dels => match execute_batch s adds dels with Ok s' => (s', 0) | Err e => (s, e) end
+    | OBackupRestore => (s, 0)
+    end.
+
+  Fixpoint model_run (s : store) (ops : list op) : store * list N :=
+    match ops with
+    | [] => (s, [])
+    | o :: r => let '(s1, e) := model_step s o in let '(s2, es) := model_run s1 r in (s2, e :: es)
     end.
 End WithSort.
 
